@@ -35,8 +35,9 @@ fn mix_txs(mix: u8, h: u64) -> Vec<Tx> {
         ],
         // two txs of equal witness-stripped size, larger than the coinbase (tie for biggest size)
         3 => vec![
-            Tx { version: 1, segwit: false, inputs: vec![spend(1), spend(3)], outputs: vec![pay(3, 1)], locktime: 0 },
-            Tx { version: 1, segwit: false, inputs: vec![spend(2), spend(4)], outputs: vec![pay(4, 2)], locktime: 0 },
+            Tx { version: 1, segwit: false, inputs: vec![spend(1), spend(3), spend(5), spend(7)], outputs: vec![pay(3, 1)], locktime: 0 },
+            Tx { version: 1, segwit: false, inputs: vec![spend(2), spend(4), spend(6), spend(8)], outputs: vec![pay(4, 2)], locktime: 0 },
+            Tx { version: 1, segwit: false, inputs: vec![spend(9), spend(10), spend(11), spend(12)], outputs: vec![pay(5, 3)], locktime: 0 },
         ],
         // a segwit tx that is the biggest on disk but not witness-stripped, next to a larger legacy tx
         _ => {
@@ -44,7 +45,7 @@ fn mix_txs(mix: u8, h: u64) -> Vec<Tx> {
             i.witness = vec![vec![7u8; 400], vec![8u8; 300]];
             vec![
                 Tx { version: 2, segwit: true, inputs: vec![i], outputs: vec![pay(3, 5)], locktime: 0 },
-                Tx { version: 1, segwit: false, inputs: vec![spend(2), spend(3), spend(4)], outputs: vec![pay(4, 6), pay(5, 7)], locktime: 0 },
+                Tx { version: 1, segwit: false, inputs: vec![spend(2), spend(3), spend(4), spend(5), spend(6)], outputs: vec![pay(4, 6), pay(5, 7)], locktime: 0 },
             ]
         }
     }
